@@ -116,14 +116,19 @@ func (s *Swarm[T]) Tell(ctx context.Context, dst Addr[T], data p2p.IOVec) error 
 		if err != nil {
 			return err
 		}
-		defer stream.Close()
 		if deadline, yes := ctx.Deadline(); yes {
 			if err := stream.SetWriteDeadline(deadline); err != nil {
+				stream.CancelWrite(1)
 				return err
 			}
 		}
-		_, err = data.WriteTo(stream)
-		return err
+		if _, err = data.WriteTo(stream); err != nil {
+			// A tell has no length prefix: the end of the stream is the end of the message. Closing the
+			// stream here would make the receiver take what was written so far for the whole message.
+			stream.CancelWrite(1)
+			return err
+		}
+		return stream.Close()
 	})
 	if isSessionReplaced(err) {
 		return s.Tell(ctx, dst, data)
